@@ -15,7 +15,7 @@ import sys, os, subprocess, shutil, json, tempfile, glob, re, time
 ENV = dict(os.environ, GOFLAGS='-mod=mod', GOPROXY='off', GOSUMDB='off', GOTOOLCHAIN='local')
 
 def run(cmd, cwd, timeout=1800, env=None):
-    r = subprocess.run(cmd, cwd=cwd, env=env or ENV, capture_output=True, text=True, timeout=timeout)
+    r = subprocess.run(cmd, cwd=cwd, env=env or ENV, capture_output=True, text=True, errors='replace', timeout=timeout)
     return r.returncode, (r.stdout + r.stderr)
 
 def main():
